@@ -57,7 +57,7 @@ type COp struct {
 
 type Spec struct {
 	ID   uint64 `json:"id"`
-	Kind string `json:"kind"` // validate | recover | mut | signbytes | fullbytes | cache | qisign | qi
+	Kind string `json:"kind"` // validate | recover | mut | signbytes | fullbytes | cache | qisign | qi | qipool
 	Note string `json:"note,omitempty"`
 	// validate
 	V8 uint8  `json:"v8,omitempty"`
@@ -77,6 +77,9 @@ type Spec struct {
 	Ops []COp `json:"ops,omitempty"`
 	// qi
 	Qi *QiSpec `json:"qi,omitempty"`
+	// qipool
+	Pool     *PoolSpec     `json:"pool,omitempty"`
+	QuaiPool *QuaiPoolSpec `json:"quai_pool,omitempty"`
 }
 
 // ---------- helpers ----------
@@ -267,6 +270,10 @@ func (x *runner) run(s *Spec) {
 		term = x.runQiSign(s)
 	case "qi":
 		term = x.runQi(s)
+	case "qipool":
+		term = x.runQiPool(s)
+	case "quaipool":
+		term = x.runQuaiPool(s)
 	default:
 		panic("kind " + s.Kind)
 	}
